@@ -947,7 +947,13 @@ func (w *World) Exec(op *Op) (out Outcome) {
 		}
 		h = fnvU64(h, uint64(ident+1))
 		h = fnvU64(h, snapOf(d).All())
-		w.set(op.Out, d)
+		if ident < 0 && len(tensor.VerifRaw(d)) > 16<<20 {
+			// a result of more than 16 MB is compared and then dropped (in every world alike): chains of growing
+			// results would exhaust the memory of the worker
+			w.set(op.Out, nil)
+		} else {
+			w.set(op.Out, d)
+		}
 	} else {
 		h = hashValue(h, res)
 	}
